@@ -12,3 +12,4 @@ OBLIGATIONS = K.SPANS + [K.OVERLAPS, K.INDEX_PAIRS] + [o for o in K.WRITER_LAYOU
 OBLIGATIONS = OBLIGATIONS + [K.SEARCH_ORDER, K.RTREE_LOOP]
 OBLIGATIONS = OBLIGATIONS + [K.TREE_OFFSETS]
 OBLIGATIONS = OBLIGATIONS + [K.ARG_NAMES]
+OBLIGATIONS = OBLIGATIONS + [K.NODE_COUNTS]
